@@ -33,23 +33,12 @@ class XmlScanEngine(DiffEngine):
                 os.remove(src)
             except OSError:
                 pass
-        d = r.get("distribution", {})
-        r["variant"] = {"fixA": bool(d.pop("variant.fixA", 0)), "fixE": bool(d.pop("variant.fixE", 0))}
-        known = []
-        if not r["variant"]["fixA"]:
-            known.append("F05a look_init dereferences a failed strchr: class excluded (%d buffers skipped); VERIF_INCLUDE_F05A=1 runs it" % d.get("skip.f05a", 0))
-        if not r["variant"]["fixE"]:
-            known.append("F05e next_attr reads one byte past the buffer when a value starts at the final NUL: class excluded (%d calls skipped); VERIF_INCLUDE_F05E=1 runs it" % d.get("skip.f05e", 0))
-        known.append("F05f close_content without get_content (hwloc__xml_import_userdata, length 0): not issued by the scripted consumer; VERIF_INCLUDE_F05F=1 issues it")
-        known.append("F05b set_xmlbuffer(size <= 0): not generated; VERIF_INCLUDE_F05B=1 generates it")
-        r["excluded_classes"] = known
         return r
 
 
 ENGINE = XmlScanEngine(
     "xmlscan", include_c=("topology-xml-nolibxml",), classify=classify, distinct_key=distinct_key,
     sizes={"quick": (16, 25000), "thorough": (48, 120000)},
-    env={k: os.environ[k] for k in ("VERIF_INCLUDE_F05A", "VERIF_INCLUDE_F05B", "VERIF_INCLUDE_F05E", "VERIF_INCLUDE_F05F") if k in os.environ},
     rule="buffers: valid v3 / v2 exports of synthetic topologies annotated with infos (escaped characters), userdata, distances, Misc; "
          "the bundled XML files (first 6000 bytes); hand-written small documents truncated at EVERY byte; structure-aware mutants "
          "(garbage tokens, structural bytes, deletions, truncation next to =\" and >); random bytes.  Each buffer is scanned by a "
